@@ -3,29 +3,59 @@ package main
 import (
 	"fmt"
 	"strings"
+	"unicode/utf8"
 
 	. "verifharness/hlib"
-
-	"github.com/cnotch/ipchub/provider/auth"
 )
 
-// C16: permission patterns.  Implementation: a fresh auth.User initialised through
-// CopyFrom (→ init → initMatchers → NewPathMatcher) and ValidatePermission.
+// C16: permission patterns.  Implementation: auth.User initialised through one of four routes
+// (CopyFrom; auth.Save + auth.Get of a new user; auth.Save over an existing user with other rights;
+// users.json loaded by auth.Reset(auth.JSON)) and ValidatePermission with the pull or the push
+// right.  Model and specification: the compiled Lean driver (Drv/C16.lean).
 func main() { Main("C16", runC16) }
 
-func implPermit(right string, admin bool, path string) (res bool, panicked string) {
-	defer func() {
-		if r := recover(); r != nil {
-			panicked = fmt.Sprint(r)
-		}
-	}()
-	u := &auth.User{Name: "u"}
-	src := &auth.User{Name: "u", Admin: admin, PullAccess: right, PushAccess: ""}
-	u.CopyFrom(src, false)
-	return u.ValidatePermission(path, auth.PullRight), ""
+// one case.  The op line is
+//
+//	c16 perm2 <pull-hex> <push-hex> <admin> <pull|push|other> <path-hex> <route>
+//
+// (strings as UTF-8 bytes); corpus lines of the older form `c16 permit <right> <admin> <path>` are
+// read as pull-only cases on the CopyFrom route.
+type cs struct {
+	pull, push string
+	admin      bool
+	need       string // pull | push | other
+	path       string
+	route      string // copy | save | upd:<prevpull-hex>:<prevpush-hex>:<prevadmin> | json
+	exh        bool   // member of the exhaustive enumeration (distinct by construction)
 }
 
-// hasEdgeSpace: some '/'-segment of s (after trimming the whole string) begins or ends with a blank
+func (k cs) line() string {
+	return fmt.Sprintf("c16 perm2 %s %s %s %s %s %s", Hx([]byte(k.pull)), Hx([]byte(k.push)), B01(k.admin), k.need, Hx([]byte(k.path)), k.route)
+}
+
+func (k cs) relevant() string {
+	if k.need == "push" {
+		return k.push
+	}
+	return k.pull
+}
+
+func parseCase(l string) (cs, bool) {
+	f := strings.Fields(l)
+	if len(f) == 5 && f[0] == "c16" && f[1] == "permit" {
+		return cs{pull: string(Unhx(f[2])), admin: f[3] == "1", need: "pull", path: string(Unhx(f[4])), route: "copy"}, true
+	}
+	if len(f) >= 7 && f[0] == "c16" && f[1] == "perm2" {
+		k := cs{pull: string(Unhx(f[2])), push: string(Unhx(f[3])), admin: f[4] == "1", need: f[5], path: string(Unhx(f[6])), route: "copy"}
+		if len(f) >= 8 {
+			k.route = f[7]
+		}
+		return k, true
+	}
+	return cs{}, false
+}
+
+// segEdgeSpace: some '/'-segment of s (after trimming the whole string) begins or ends with a blank
 func segEdgeSpace(s string) bool {
 	s = strings.TrimSpace(s)
 	for _, seg := range strings.Split(strings.Trim(s, "/"), "/") {
@@ -36,178 +66,204 @@ func segEdgeSpace(s string) bool {
 	return false
 }
 
-func c16Class(right, path string) string {
-	ws := segEdgeSpace(path)
+func isASCII(s string) bool {
+	for i := 0; i < len(s); i++ {
+		if s[i] >= 0x80 {
+			return false
+		}
+	}
+	return true
+}
+
+// c16Class names the kind of input a failing case belongs to
+func c16Class(k cs) string {
+	right := k.relevant()
+	ws := segEdgeSpace(k.path)
 	for _, p := range strings.Split(right, ";") {
 		if segEdgeSpace(p) {
 			ws = true
 		}
 	}
-	if ws {
+	switch {
+	case ws:
 		return "segment-edge-whitespace"
+	case k.need == "other":
+		return "neither-right"
+	case !isASCII(right) || !isASCII(k.path):
+		return "non-ascii"
+	case strings.ContainsAny(right+k.path, "\t\n\v\f\r"):
+		return "ascii-blank"
+	case k.need == "push":
+		return "push-right"
+	case k.route != "copy":
+		return "saved-user"
 	}
 	return "other"
 }
 
 func runC16(c *Ctx) {
-	type cs struct {
-		right string
-		admin bool
-		path  string
-	}
-	var cases []cs
-	add := func(r string, a bool, p string) { cases = append(cases, cs{r, a, p}) }
+	c.Res.Rule = "case = (pull right, push right, admin flag, which right is needed, path, route by which the user is built); distinct by that tuple; non-trivial when the relevant right has at least one non-empty pattern and the path is non-empty"
+	ev := newEvaluator(c)
+	defer ev.close()
 
+	// 0. the character functions of the model and of the specification against the linked unicode package
+	excl := probeChars(c)
+
+	// 1. corpus / replay
+	var first []cs
 	for _, l := range c.CorpusLines() {
-		f := strings.Fields(l)
-		if len(f) == 5 && f[0] == "c16" && f[1] == "permit" {
-			add(string(Unhx(f[2])), f[3] == "1", string(Unhx(f[4])))
+		if k, isCase := parseCase(l); isCase {
+			first = append(first, k)
 		}
 	}
-	// the documented examples (docs/config.md §3.2)
-	for _, e := range [][2]string{{"/a", "/a"}, {"/a", "/a/b"}, {"/a/*", "/a"}, {"/a/*", "/a/b"}, {"/a/*", "/a/b/c"},
-		{"/a/+/c/*", "a/b/c"}, {"/a/+/c/*", "a/d/c"}, {"/a/+/c/*", "a/b/c/d"}, {"/a/+/c/*", "a/b/c/d/e"}, {"/a/+/c/*", "a/c"}, {"*", "/x/y"}} {
-		add(e[0], false, e[1])
+	if c.Replay != "" {
+		ev.run(first)
+		return
 	}
-	alpha := "aAb+*/; "
-	if c.Thorough() {
-		// exhaustive: all right strings up to 5 and paths up to 4 over the alphabet: 8^0..5 × 8^0..4
-		var all func(n int, pre string, out *[]string)
-		all = func(n int, pre string, out *[]string) {
-			*out = append(*out, pre)
-			if n == 0 {
-				return
-			}
-			for i := 0; i < len(alpha); i++ {
-				all(n-1, pre+string(alpha[i]), out)
-			}
+	// 2. the documented examples (docs/config.md §3.2 and §4.1)
+	for _, e := range [][2]string{{"/a", "/a"}, {"/a", "/a/b"}, {"/a/*", "/a"}, {"/a/*", "/a/b"}, {"/a/*", "/a/c"}, {"/a/*", "/a/b/c"},
+		{"/a/+/c/*", "a/b/c"}, {"/a/+/c/*", "a/d/c"}, {"/a/+/c/*", "a/b/c/d"}, {"/a/+/c/*", "a/b/c/d/e"}, {"/a/+/c/*", "a/c"}, {"*", "/x/y"},
+		{"/test/*;/rooms/*", "/rooms/1"}, {"/test/*;/rooms/*", "/Test"}, {"/rooms/+/entrance", "/rooms/7/entrance"}, {"/rooms/+/entrance", "/rooms/entrance"}} {
+		for _, r := range []string{"copy", "save", "json"} {
+			first = append(first, cs{pull: e[0], push: "/none", need: "pull", path: e[1], route: r})
+			first = append(first, cs{pull: "/none", push: e[0], need: "push", path: e[1], route: r})
 		}
-		var rs, ps []string
-		all(5, "", &rs)
-		all(4, "", &ps)
-		// all rights × paths of length ≤ 3 fully; longer paths sampled per right
-		for _, r := range rs {
-			for _, p := range ps {
-				if len(r)+len(p) <= 6 || c.Rng.Intn(400) == 0 {
-					add(r, false, p)
-				}
-			}
-		}
-		c.Res.Exhaustive = false
-		c.Note("all (right,path) pairs over {a,A,b,+,*,/,;,space} with |right|+|path| ≤ 6 enumerated completely; longer ones sampled")
 	}
-	// random structured pairs biased to near-matches
-	segsAlpha := []string{"a", "A", "b", "bc", "+", "*", "", " a", "a ", " ", "a b", "Ab"}
-	n := c.Budget(60000, 600000)
-	for i := 0; i < n; i++ {
-		var right string
-		np := 1 + c.Rng.Intn(3)
-		var pats []string
-		for j := 0; j < np; j++ {
-			ns := 1 + c.Rng.Intn(4)
-			var ss []string
-			for k := 0; k < ns; k++ {
-				w := segsAlpha[c.Rng.Intn(len(segsAlpha))]
-				if !c.Rng.Chance(12) && strings.ContainsAny(w, " ") {
-					w = "a"
-				}
-				ss = append(ss, w)
-			}
-			p := strings.Join(ss, "/")
-			if c.Rng.Chance(70) {
-				p = "/" + p
-			}
-			if c.Rng.Chance(10) {
-				p = " " + p + " "
-			}
-			pats = append(pats, p)
-		}
-		right = strings.Join(pats, ";")
-		if c.Rng.Chance(5) {
-			right = ""
-		}
-		// path: derive from one pattern (near-match) or random
-		var path string
-		if c.Rng.Chance(70) && len(pats) > 0 {
-			base := strings.Split(strings.Trim(strings.TrimSpace(pats[c.Rng.Intn(len(pats))]), "/"), "/")
-			var ss []string
-			for _, s := range base {
-				switch {
-				case s == "+":
-					ss = append(ss, segsAlpha[c.Rng.Intn(4)])
-				case s == "*":
-					for k := c.Rng.Intn(3); k > 0; k-- {
-						ss = append(ss, "x")
-					}
-				default:
-					if c.Rng.Chance(10) {
-						s = segsAlpha[c.Rng.Intn(len(segsAlpha))]
-					}
-					if c.Rng.Chance(20) {
-						s = strings.ToUpper(s)
-					}
-					ss = append(ss, s)
-				}
-			}
-			if c.Rng.Chance(10) {
-				ss = append(ss, "z")
-			}
-			if c.Rng.Chance(10) && len(ss) > 0 {
-				ss = ss[:len(ss)-1]
-			}
-			path = "/" + strings.Join(ss, "/")
-		} else {
-			l := c.Rng.Intn(7)
-			b := make([]byte, l)
-			for k := range b {
-				b[k] = c.Rng.Pick(alpha)
-			}
-			path = string(b)
-		}
-		add(right, c.Rng.Chance(15), path)
+	ev.run(first)
+	if ev.dead {
+		return
 	}
 
-	lines := make([]string, len(cases))
-	for i, k := range cases {
-		lines[i] = fmt.Sprintf("c16 permit %s %s %s", Hx([]byte(k.right)), B01(k.admin), Hx([]byte(k.path)))
+	// 3. small scope, exhaustive: every (right, path) over the statement's alphabet up to a bound
+	exhaustive(c, ev)
+	if ev.dead {
+		return
 	}
-	outs := c.Drive(lines)
-	c.Res.Rule = "case = (right string, admin flag, path); distinct by the triple; non-trivial when the right has at least one non-empty pattern and the path is non-empty"
-	for i, k := range cases {
-		got, pan := implPermit(k.right, k.admin, k.path)
-		m := KV(outs[i])
-		impl := B01(got)
-		if pan != "" {
-			impl = "panic"
+
+	// 4. structured random pairs biased to near-matches: Unicode letters and blanks, two rights, all routes
+	g := newGen(c, excl)
+	n := c.Budget(60000, 600000)
+	const chunk = 100000
+	for done := 0; done < n && !ev.dead; done += chunk {
+		m := chunk
+		if n-done < m {
+			m = n - done
 		}
-		c.Eval(lines[i], strings.Trim(k.right, "; ") != "" && k.path != "")
-		if got {
-			c.Count("permitted")
-		} else {
-			c.Count("denied")
+		batch := make([]cs, 0, m)
+		for i := 0; i < m; i++ {
+			batch = append(batch, g.next())
 		}
-		if strings.Contains(k.right, "+") {
-			c.Count("right-has-plus")
-		}
-		if strings.Contains(k.right, "*") {
-			c.Count("right-has-star")
-		}
-		if strings.Contains(k.right, ";") {
-			c.Count("right-multi")
-		}
-		if k.admin {
-			c.Count("admin")
-		}
-		if i%(len(cases)/8+1) == 0 {
-			c.Sample(fmt.Sprintf("right=%q admin=%v path=%q impl=%s %s", k.right, k.admin, k.path, impl, outs[i]))
-		}
-		if impl != m["model"] {
-			c.Find(Finding{Kind: "corr", Class: "permit", Case: lines[i], Impl: impl, Model: m["model"], Spec: m["spec"],
-				Detail: fmt.Sprintf("right=%q admin=%v path=%q", k.right, k.admin, k.path)})
-		}
-		if impl != m["spec"] {
-			c.Find(Finding{Kind: "oracle", Class: c16Class(k.right, k.path), Case: lines[i], Impl: impl, Model: m["model"], Spec: m["spec"],
-				Detail: fmt.Sprintf("right=%q admin=%v path=%q", k.right, k.admin, k.path)})
+		ev.run(batch)
+	}
+	if ev.dead {
+		return
+	}
+
+	// 5. byte strings that are not valid UTF-8 (outside the theorems): the implementation must treat
+	//    them like the string with every invalid byte replaced by U+FFFD
+	probeInvalidUTF8(c, ev, g)
+}
+
+// exhaustive enumerates all pairs over {a,A,b,+,*,/,;,space}: quick |right|+|path| ≤ 5 (219 345
+// pairs), thorough |right|+|path| ≤ 7 (18.9 million pairs).  Odd cases carry the right as the PUSH right (next to a pull right that
+// permits something else), even ones as the pull right.
+func exhaustive(c *Ctx, ev *evaluator) {
+	const alpha = "aAb+*/; "
+	maxLen := 5
+	in := func(lr, lp int) bool { return lr+lp <= 5 }
+	desc := "|right|+|path| ≤ 5"
+	if c.Thorough() {
+		maxLen = 7
+		in = func(lr, lp int) bool { return lr+lp <= 7 }
+		desc = "|right|+|path| ≤ 7"
+	}
+	byLen := make([][]string, maxLen+1)
+	byLen[0] = []string{""}
+	for l := 1; l <= maxLen; l++ {
+		for _, p := range byLen[l-1] {
+			for i := 0; i < len(alpha); i++ {
+				byLen[l] = append(byLen[l], p+string(alpha[i]))
+			}
 		}
 	}
+	batch := make([]cs, 0, 250000)
+	total := 0
+	for lr := 0; lr <= maxLen; lr++ {
+		for lp := 0; lp <= maxLen; lp++ {
+			if !in(lr, lp) {
+				continue
+			}
+			for _, r := range byLen[lr] {
+				for _, p := range byLen[lp] {
+					k := cs{pull: r, need: "pull", path: p, route: "copy", exh: true}
+					if total%2 == 1 {
+						k = cs{pull: "/zz/*", push: r, need: "push", path: p, route: "copy", exh: true}
+					}
+					total++
+					batch = append(batch, k)
+					if len(batch) == cap(batch) {
+						ev.run(batch)
+						batch = batch[:0]
+						if ev.dead {
+							return
+						}
+					}
+				}
+			}
+		}
+	}
+	ev.run(batch)
+	c.CountN("exhaustive-pairs", total)
+	c.Note(fmt.Sprintf("exhaustive: all %d (right, path) pairs over {a,A,b,+,*,/,;,space} with %s; longer and non-ASCII ones sampled", total, desc))
+}
+
+// probeInvalidUTF8: not valid UTF-8 is excluded from the theorems (strings are List Char).  What the
+// implementation does there is pinned by this probe as a correspondence: every invalid byte acts
+// like U+FFFD (strings.ToLower rewrites it so; TrimSpace and the scanners see RuneError).
+func probeInvalidUTF8(c *Ctx, ev *evaluator, g *gen) {
+	bad := []string{"\xff", "\x80", "\xc3", "\xe2\x80", "\xc0\xaf", "\xed\xa0\x80", "\xf0\x90\x80", "\xfe"}
+	inject := func(s string) string {
+		b := bad[c.Rng.Intn(len(bad))]
+		if len(s) == 0 {
+			return b
+		}
+		// at a rune boundary
+		var idx []int
+		for i := range s {
+			idx = append(idx, i)
+		}
+		idx = append(idx, len(s))
+		i := idx[c.Rng.Intn(len(idx))]
+		return s[:i] + b + s[i:]
+	}
+	n := c.Budget(4000, 40000)
+	var raw, repl []cs
+	for len(raw) < n {
+		k := g.next()
+		k.route = "copy"
+		which := c.Rng.Intn(3)
+		r := k
+		switch which {
+		case 0:
+			r.path = inject(r.path)
+		case 1:
+			if r.need == "push" {
+				r.push = inject(r.push)
+			} else {
+				r.pull = inject(r.pull)
+			}
+		default:
+			r.path = inject(r.path)
+			r.pull = inject(r.pull)
+			r.push = inject(r.push)
+		}
+		if utf8.ValidString(r.pull) && utf8.ValidString(r.push) && utf8.ValidString(r.path) {
+			continue
+		}
+		v := r
+		v.pull, v.push, v.path = string([]rune(r.pull)), string([]rune(r.push)), string([]rune(r.path))
+		raw = append(raw, r)
+		repl = append(repl, v)
+	}
+	ev.runInvalid(raw, repl)
 }
